@@ -1,7 +1,7 @@
 #!/bin/bash
 # tools/sweep.sh <tier> <seed>...   runs every registered check at the given seeds; prints one line per run
 cd "$(dirname "$0")/.." || exit 2
-tier=$1; shift
+tier=$1; shift; mkdir -p work
 props=$(jq -r '.checks[].property_id' MANIFEST.json)
 fail=0
 for seed in "$@"; do
